@@ -1115,14 +1115,25 @@ enum CachePolicy { NoStore, Public }
 struct CacheHeader(CachePolicy);
 #[derive(Serialize, JsonSchema)]
 struct DocHeaders { #[serde(rename = "x-cache")] cache: CacheHeader, #[serde(rename = "x-n")] n: Option<u32> }
+/// a named type used both as a query parameter member and inside a response body, carrying annotations
+#[derive(Serialize, Deserialize, JsonSchema)]
+#[schemars(example = "shared_mode_example")]
+enum SharedMode {
+    /// sort by name
+    ByName,
+    ById,
+}
+fn shared_mode_example() -> SharedMode { SharedMode::ByName }
+#[derive(Deserialize, JsonSchema)]
+struct DocQuery { mode: Option<SharedMode> }
 #[derive(Serialize, JsonSchema)]
-struct DocBody { inner: Vec<DocInner>, maybe: Option<Box<DocInner>> }
+struct DocBody { inner: Vec<DocInner>, maybe: Option<Box<DocInner>>, mode: SharedMode }
 #[derive(Serialize, JsonSchema)]
 struct DocInner { n: u64 }
 
 #[endpoint { method = GET, path = "/zz-doc" }]
-async fn doc_endpoint(_r: RequestContext<()>) -> Result<dropshot::HttpResponseHeaders<HttpResponseOk<DocBody>, DocHeaders>, HttpError> {
-    Ok(dropshot::HttpResponseHeaders::new(HttpResponseOk(DocBody { inner: vec![], maybe: None }), DocHeaders { cache: CacheHeader(CachePolicy::Public), n: None }))
+async fn doc_endpoint(_r: RequestContext<()>, _q: Query<DocQuery>) -> Result<dropshot::HttpResponseHeaders<HttpResponseOk<DocBody>, DocHeaders>, HttpError> {
+    Ok(dropshot::HttpResponseHeaders::new(HttpResponseOk(DocBody { inner: vec![], maybe: None, mode: SharedMode::ById }), DocHeaders { cache: CacheHeader(CachePolicy::Public), n: None }))
 }
 
 /// {"op":"openapi","endpoints":[{id,method,path(literals only),versions,visible}],"orders":[[..],..],"versions":[..]}
@@ -1134,6 +1145,7 @@ fn op_openapi(case: &Value) -> Value {
     let versions: Vec<semver::Version> = case["versions"].as_array().unwrap().iter().map(|v| semver::Version::parse(v.as_str().unwrap()).unwrap()).collect();
     let mut per_version = vec![];
     let (mut same_across_orders, mut same_twice, mut refs_resolve) = (true, true, true);
+    let mut shared_type = Value::Null;
     for v in &versions {
         let mut docs: Vec<Vec<u8>> = vec![];
         for order in &orders {
@@ -1174,9 +1186,11 @@ fn op_openapi(case: &Value) -> Value {
             }
         }
         walk(&doc, &doc, &mut refs_resolve);
+        shared_type = doc["components"]["schemas"]["SharedMode"].clone();
         per_version.push(json!({"version": v.to_string(), "operations": ops}));
     }
-    json!({"per_version": per_version, "same_across_orders": same_across_orders, "same_twice": same_twice, "refs_resolve": refs_resolve})
+    json!({"per_version": per_version, "same_across_orders": same_across_orders, "same_twice": same_twice, "refs_resolve": refs_resolve,
+           "shared_type": shared_type})
 }
 
 // ---------------------------------------------------------------------------------- C09 echo server
